@@ -449,12 +449,13 @@ pub fn exec_store(ctx: &mut Ctx, t: &mut Toks) -> String {
             "OK".into()
         }
         "stats" => nat_list(&c.store.as_ref().unwrap().shard_stats()),
-        "fdist" | "odist" => {
+        "fdist" | "odist" | "fdisti" | "odisti" => {
             let cls = t.u64();
             let only_baked = t.usize() == 1;
             let k = t.usize();
             let st_ref = &mut *c;
-            let (ok, err) = if op == "fdist" {
+            let iter_mode = op.ends_with('i');
+            let (ok, err) = if op.starts_with("fdist") {
                 let mut cands = Vec::new();
                 let mut bad = None;
                 for _ in 0..k {
@@ -482,8 +483,12 @@ pub fn exec_store(ctx: &mut Ctx, t: &mut Toks) -> String {
                 crate::sched::release();
                 r
             };
-            let oks: Vec<ObservationMetricOk<HO>> = ok.all();
-            let errs = err.all();
+            // results are read either in one go or through the streaming iterators
+            let (oks, errs): (Vec<ObservationMetricOk<HO>>, Vec<_>) = if iter_mode {
+                (ok.into_iter().collect(), err.into_iter().collect())
+            } else {
+                (ok.all(), err.all())
+            };
             {
                 let active = crate::sched::SCHED.0.lock().unwrap().active;
                 if active {
